@@ -27,7 +27,10 @@ anything is changed (`_check_derived_relrefs`, repaired in /repo by 178dea2 … 
 Cells are not maintained incrementally: a space has the cells of every space of its linearisation (C03's
 theorem), which is all `get_impl_from_name` needs here.  Not modelled: deletion and renaming of spaces,
 renaming of cells, model-level references, ItemSpaces as states (the `wrap_impl` view of a reference is
-`itemView`), saving and loading.
+`itemView`), saving and loading; the IDENTITY of objects: a target is a path and exists when something is
+found under the path now, so a cells deleted and re-created / re-derived under its path is the same target
+here, while in modelx the references keep the dead object (R8C10; the correspondence leaves such
+references out, see `Props/C10.lean`, LIMIT OF THE MODEL).
 
 `dirty` is ghost state (read by no operation): a space is marked when the linearisation of one of its
 ENCLOSING spaces changed and the space was not derived again since; it is cleared by re-derivation.
